@@ -53,7 +53,7 @@ func c18Check(tier string) int {
 	start := time.Now()
 	maxLen := 7
 	if tier == "thorough" {
-		maxLen = 8
+		maxLen = 9
 	}
 	tmp, _ := os.MkdirTemp("", "c18")
 	defer os.RemoveAll(tmp)
